@@ -1,2 +1,76 @@
-(* C11 -- theorems are being added *)
-From ZK Require Import Laws.
+(* C11 -- domain separation.  Finite-table obligations over the constants regenerated from ciphersuites.rs on every
+   run (a source edit that merges two identifiers or DSTs breaks interface_ids_separated), prefix independence of the
+   generator derivation for any expander, and reductions: a repeated generator, or one shared between two interface
+   ids, is a collision of expand_message or hash_to_curve on explicit distinct inputs. *)
+From ZK Require Import Laws BaseLemmas ModelLemmas Consts Separation.
+
+(* 6 interface ids pairwise prefix-free; 36 derived DST / seed strings pairwise distinct, each <= 255 bytes; P1 48 bytes
+   and different per suite; EXPAND_LEN 48, IKM_LEN 32, scalar length 32; expander kinds as the model assumes *)
+Theorem C11_interface_ids_separated :
+  consts_table_ok = true.
+Proof. exact interface_ids_separated. Qed.
+Check (C11_interface_ids_separated :
+  consts_table_ok = true).
+Print Assumptions C11_interface_ids_separated.
+
+Theorem C11_sha_suite_dsts_ok :
+  suite_dsts_ok sha_suite.
+Proof. exact sha_suite_dsts_ok. Qed.
+Check (C11_sha_suite_dsts_ok :
+  suite_dsts_ok sha_suite).
+Print Assumptions C11_sha_suite_dsts_ok.
+
+Theorem C11_shake_suite_dsts_ok :
+  suite_dsts_ok shake_suite.
+Proof. exact shake_suite_dsts_ok. Qed.
+Check (C11_shake_suite_dsts_ok :
+  suite_dsts_ok shake_suite).
+Print Assumptions C11_shake_suite_dsts_ok.
+
+(* the first k generators do not depend on how many are requested (any expander, any hash_to_curve, any api_id) *)
+Theorem C11_create_prefix :
+  forall (E : env) n k api, (k <= n)%nat ->
+  firstn k (create_generators E n api) = create_generators E k api.
+Proof. exact create_prefix. Qed.
+Check (C11_create_prefix :
+  forall (E : env) n k api, (k <= n)%nat ->
+  firstn k (create_generators E n api) = create_generators E k api).
+Print Assumptions C11_create_prefix.
+
+Theorem C11_generator_dup_reduces :
+  forall (E : env) n api k1 k2 p,
+  (N.of_nat n < usize_max)%N -> k1 <> k2 ->
+  nth_error (create_generators E n api) k1 = Some p ->
+  nth_error (create_generators E n api) k2 = Some p ->
+  let sd := api ++ c_generator_seed_dst (cs E) in
+  let gd := api ++ c_generator_dst (cs E) in
+  exists x1 x2, x1 <> x2 /\
+    (Collision (fun m => expand E m sd 48) x1 x2 \/
+     Collision (fun m => h2c E m gd) (expand E x1 sd 48) (expand E x2 sd 48)).
+Proof. exact generator_dup_reduces. Qed.
+Check (C11_generator_dup_reduces :
+  forall (E : env) n api k1 k2 p,
+  (N.of_nat n < usize_max)%N -> k1 <> k2 ->
+  nth_error (create_generators E n api) k1 = Some p ->
+  nth_error (create_generators E n api) k2 = Some p ->
+  let sd := api ++ c_generator_seed_dst (cs E) in
+  let gd := api ++ c_generator_dst (cs E) in
+  exists x1 x2, x1 <> x2 /\
+    (Collision (fun m => expand E m sd 48) x1 x2 \/
+     Collision (fun m => h2c E m gd) (expand E x1 sd 48) (expand E x2 sd 48))).
+Print Assumptions C11_generator_dup_reduces.
+
+Theorem C11_generator_shared_reduces :
+  forall (E : env) n m api api' p,
+  api <> api' ->
+  In p (create_generators E n api) -> In p (create_generators E m api') ->
+  exists s s', Collision (fun md : bytes * bytes => h2c E (fst md) (snd md))
+                         (s, api ++ c_generator_dst (cs E)) (s', api' ++ c_generator_dst (cs E)).
+Proof. exact generator_shared_reduces. Qed.
+Check (C11_generator_shared_reduces :
+  forall (E : env) n m api api' p,
+  api <> api' ->
+  In p (create_generators E n api) -> In p (create_generators E m api') ->
+  exists s s', Collision (fun md : bytes * bytes => h2c E (fst md) (snd md))
+                         (s, api ++ c_generator_dst (cs E)) (s', api' ++ c_generator_dst (cs E))).
+Print Assumptions C11_generator_shared_reduces.
